@@ -181,7 +181,27 @@ func ruleU2(c *Ctx, id string) {
 			}
 		}
 	}
-	// no success status anywhere else is checked by C01.R1 (typestate)
+	// every success end state of COMMIT ended its transaction through CommitFh: a plain Commit of this
+	// read-only transaction does not flush anything (typestate end states)
+	t := c.tsPreamble(id)
+	nOK, bad := 0, ""
+	for _, sn := range t.Snaps {
+		if sn.Entry != cm.Name() {
+			continue
+		}
+		if cls, _ := statusClass(sn); cls != "ok" {
+			continue
+		}
+		nOK++
+		via := ""
+		if len(sn.G.Order) > 0 {
+			via = sn.G.Txns[sn.G.Order[len(sn.G.Order)-1]].Via
+		}
+		if via != V.CommitFh.Name() {
+			bad = fmt.Sprintf("a success reply at %s ends its transaction through %q", P.Pos(sn.Ret.Pos()), via)
+		}
+	}
+	R.Check(nOK > 0 && bad == "", id, "NFSPROC3_COMMIT|every success path flushes", P.Pos(cm.Pos()), "every success end state of COMMIT terminated its transaction with CommitFh (the flushing terminator), whatever the arguments", fmt.Sprintf("%d success end states, all through CommitFh", nOK), bad+": COMMIT (e.g. with count 0 = 'to the end of the file') answers OK with the unchanged verifier while earlier unstable writes are still only in memory")
 }
 
 func ruleU3(c *Ctx, id string) {
